@@ -20,19 +20,24 @@ def Which.other : Which → Which | .i => .o | .o => .i
   cases k <;> rfl
 
 /-- Invariant of the construction loops on side `k` for the unit `u` being built; `acc` is the
-list of streams docked at `u` so far. -/
+list of objects docked at `u` so far.  While a fixed-size list is being loaded, the port list of
+`u` holds the placeholders created up front (distinct, pointing at `u`, disjoint from `acc`);
+otherwise it is empty. -/
 structure PInv (nU : Nat) (w : World) (k : Which) (u : Nat) (acc : List Nat) : Prop where
   sc : Sc nU (w.get k)
-  off : ∀ v, v ≠ u → CntAt (w.get k) v
+  off : ∀ v, v ≠ u → CntAt All (w.get k) v
   fxo : ∀ v, v ≠ u → (w.side k).fixed v = true → ((w.side k).lst v).length = (w.side k).size v
-  acc_cnt : ∀ t, w.real t = true → acc.count t = if (w.side k).loc t = some u then 1 else 0
+  acc_cnt : ∀ t, t ∉ (w.side k).lst u → acc.count t = if (w.side k).loc t = some u then 1 else 0
   acc_lt : ∀ x ∈ acc, x < w.nS
-  junk : ∀ x ∈ (w.side k).lst u, w.real x = false
+  junk_nodup : ((w.side k).lst u).Nodup
+  junk_loc : ∀ x ∈ (w.side k).lst u, (w.side k).loc x = some u
+  junk_acc : ∀ x ∈ (w.side k).lst u, x ∉ acc
 
 structure LoopExt (w w' : World) (k : Which) (u : Nat) : Prop where
   pre : w'.pre = w.pre
   nS : w.nS ≤ w'.nS
   nU : w'.nU = w.nU
+  nreal : (∀ s, w.nS ≤ s → w.real s = false) → (∀ s, w'.nS ≤ s → w'.real s = false)
   real_old : ∀ s, s < w.nS → w'.real s = w.real s
   other : w'.side k.other = w.side k.other
   fixed : (w'.side k).fixed = (w.side k).fixed
@@ -40,11 +45,12 @@ structure LoopExt (w w' : World) (k : Which) (u : Nat) : Prop where
   lst_u : (w'.side k).lst u = (w.side k).lst u
 
 theorem LoopExt.refl (w : World) (k : Which) (u : Nat) : LoopExt w w k u :=
-  ⟨rfl, Nat.le_refl _, rfl, fun _ _ => rfl, rfl, rfl, rfl, rfl⟩
+  ⟨rfl, Nat.le_refl _, rfl, id, fun _ _ => rfl, rfl, rfl, rfl, rfl⟩
 
 theorem LoopExt.trans {a b c : World} {k : Which} {u : Nat} (h1 : LoopExt a b k u)
     (h2 : LoopExt b c k u) : LoopExt a c k u :=
   ⟨h2.pre.trans h1.pre, Nat.le_trans h1.nS h2.nS, h2.nU.trans h1.nU,
+   fun h => h2.nreal (h1.nreal h),
    fun s hs => (h2.real_old s (Nat.lt_of_lt_of_le hs h1.nS)).trans (h1.real_old s hs),
    h2.other.trans h1.other, h2.fixed.trans h1.fixed, h2.size.trans h1.size, h2.lst_u.trans h1.lst_u⟩
 
@@ -54,39 +60,45 @@ def World.dockNew (w : World) (k : Which) (u : Nat) : World :=
 
 theorem dockNew_ext (w : World) (k : Which) (u : Nat) : LoopExt w (w.dockNew k u) k u := by
   cases k <;>
-  exact ⟨rfl, Nat.le_succ _, rfl, fun s hs => by
-    simp [World.dockNew, World.newStream, World.put]; intro h; omega, rfl, rfl, rfl, rfl⟩
+  exact ⟨rfl, Nat.le_succ _, rfl, fun h s hs => by
+    have h1 : w.nS + 1 ≤ s := hs
+    have := h s (by omega)
+    have h2 : s ≠ w.nS := by omega
+    simp only [World.dockNew, World.newStream, World.put, h2, if_false]; exact this,
+    fun s hs => by
+      have : s ≠ w.nS := by omega
+      simp [World.dockNew, World.newStream, World.put, this],
+    rfl, rfl, rfl, rfl⟩
 
 theorem dockNew_pinv {nU : Nat} {w : World} {k : Which} {u : Nat} {acc : List Nat}
     (h : PInv nU w k u acc) (hu : u < nU) : PInv nU (w.dockNew k u) k u (w.nS :: acc) := by
-  have hnr := h.sc.not_real
   have hln := h.sc.loc_none
   have hlt := h.sc.lst_lt
   have hll := h.sc.loc_lt
   have hoff := h.off
   have hacc := h.acc_cnt
-  have hjunk := h.junk
   have hacclt := h.acc_lt
+  have hjl := h.junk_loc
+  have hja := h.junk_acc
+  have hjn := h.junk_nodup
   cases k <;>
-  · simp only [World.get, World.side, CntAt] at hnr hln hlt hll hoff hacc hjunk hacclt
+  · simp only [World.get, World.side, CntAt] at hln hlt hll hoff hacc hacclt hjl hja hjn
     constructor
     · constructor <;> simp only [World.dockNew, World.newStream, World.put, World.get, SW.dock, Side.setLoc]
       · intro v x hx; have := hlt v x hx; omega
       · intro x hx; have := hln x; grind
-      · intro x hx; have := hnr x; grind
       · exact h.sc.lst_nil
       · exact h.sc.fixed_false
       · intro x v; have := hll x v; grind
-    · intro v hv t
+    · intro v hv t _
       simp only [World.dockNew, World.newStream, World.put, World.get, SW.dock, Side.setLoc]
-      intro ht
       by_cases htn : t = w.nS
       · subst htn
         have : w.nS ∉ _ := fun hm => Nat.lt_irrefl _ (hlt v w.nS hm)
         rw [List.count_eq_zero.mpr this]
         simp; exact fun h => hv h.symm
-      · simp only [htn, if_false] at ht ⊢
-        exact hoff v hv t ht
+      · simp only [htn, if_false]
+        exact hoff v hv t trivial
     · exact h.fxo
     · intro t
       simp only [World.dockNew, World.newStream, World.put, World.side, World.get, SW.dock, Side.setLoc]
@@ -95,7 +107,7 @@ theorem dockNew_pinv {nU : Nat} {w : World} {k : Which} {u : Nat} {acc : List Na
       · subst htn
         have : w.nS ∉ acc := fun hm => Nat.lt_irrefl _ (hacclt _ hm)
         simp [List.count_eq_zero.mpr this]
-      · simp only [htn, if_false] at ht ⊢
+      · simp only [htn, if_false]
         have hc : List.count t (w.nS :: acc) = List.count t acc := by
           rw [List.count_cons]; simp; omega
         rw [hc]; exact hacc t ht
@@ -105,108 +117,145 @@ theorem dockNew_pinv {nU : Nat} {w : World} {k : Which} {u : Nat} {acc : List Na
       rcases hx with rfl | hx
       · omega
       · have := hacclt x hx; omega
+    · simpa [World.dockNew, World.newStream, World.put, World.side, World.get, SW.dock, Side.setLoc]
+        using hjn
     · intro x
       simp only [World.dockNew, World.newStream, World.put, World.side, World.get, SW.dock, Side.setLoc]
       intro hx
       have := hlt u x hx
-      have := hjunk x hx
       have : x ≠ w.nS := by omega
-      simp [*]
+      simp only [this, if_false]; exact hjl x hx
+    · intro x
+      simp only [World.dockNew, World.newStream, World.put, World.side, World.get, SW.dock, Side.setLoc,
+        List.mem_cons, not_or]
+      intro hx
+      have := hlt u x hx
+      exact ⟨by omega, hja x hx⟩
 
-theorem put_get {w : World} {k : Which} {sw : SW} (h : sw.real = w.real) :
-    (w.put k sw).get k = sw := by
-  cases sw; simp only at h; subst h; cases k <;> rfl
+theorem put_get (w : World) (k : Which) (sw : SW) : (w.put k sw).get k = sw := by
+  cases sw; cases k <;> rfl
 
 @[simp] theorem get_next' (w : World) (k : Which) : (w.get k).next = w.nS := get_next w k
 
+theorem put_ext {w : World} {k : Which} {u : Nat} {sw : SW} (hpre : sw.pre = w.pre)
+    (hnext : w.nS ≤ sw.next) (hfixed : sw.sd.fixed = (w.side k).fixed)
+    (hsize : sw.sd.size = (w.side k).size) (hlu : sw.sd.lst u = (w.side k).lst u) :
+    LoopExt w (w.put k sw) k u :=
+  ⟨by simpa using hpre, by simpa using hnext, by simp,
+   fun h s hs => by simp only [put_nS, put_real] at hs ⊢; exact h s (Nat.le_trans hnext hs),
+   fun _ _ => by simp,
+   by simp, by simpa using hfixed, by simpa using hsize, by simpa using hlu⟩
+
 theorem redockPut_pinv {nU : Nat} {w : World} {k : Which} {u s : Nat} {acc : List Nat} {sw1 : SW}
     (h : PInv nU w k u acc) (hs : s < w.nS) (hu : u < nU)
-    (hnd : w.real s = true → (w.side k).loc s ≠ some u)
+    (hnd : (w.side k).loc s ≠ some u) (hsJ : s ∉ (w.side k).lst u)
     (hr : (w.get k).redock u s = .ok sw1) :
     PInv nU (w.put k sw1) k u (s :: acc) ∧ LoopExt w (w.put k sw1) k u ∧
-      (∀ t, w.real t = true → t ≠ s → ((w.put k sw1).side k).loc t = (w.side k).loc t) := by
+      (∀ t, t < w.nS → t ≠ s → ((w.put k sw1).side k).loc t = (w.side k).loc t) := by
   have R := redock_spec h.sc (by simpa using hs) hu hr
-  have hreal : sw1.real = w.real := by simpa using R.ext.real
   have hfixed : sw1.sd.fixed = (w.side k).fixed := by simpa using R.ext.fixed
   have hsize : sw1.sd.size = (w.side k).size := by simpa using R.ext.size
   have hnext : w.nS ≤ sw1.next := by simpa using R.ext.next
   have hlen : ∀ v, (sw1.sd.lst v).length = ((w.side k).lst v).length := by simpa using R.len
   have hlu : sw1.sd.lst u = (w.side k).lst u := by simpa using R.lst_u
-  have hlo : ∀ t, w.real t = true → t ≠ s → sw1.sd.loc t = (w.side k).loc t := by
+  have hlo : ∀ t, t < w.nS → t ≠ s → sw1.sd.loc t = (w.side k).loc t := by
     simpa using R.loc_other
-  refine ⟨⟨?_, ?_, ?_, ?_, ?_, ?_⟩, ⟨?_, ?_, ?_, ?_, ?_, ?_, ?_, ?_⟩, ?_⟩
-  · rw [put_get hreal]; exact R.sc
-  · rw [put_get hreal]; exact R.cntOff h.off
+  have hln : ∀ t, w.nS ≤ t → sw1.sd.loc t ≠ some u := by simpa using R.loc_new
+  have hJlt : ∀ x ∈ (w.side k).lst u, x < w.nS := by
+    intro x hx; simpa using h.sc.lst_lt u x (by simpa using hx)
+  refine ⟨⟨?_, ?_, ?_, ?_, ?_, ?_, ?_, ?_⟩, put_ext (by simpa using R.pre_eq) hnext hfixed hsize hlu, ?_⟩
+  · rw [put_get]; exact R.sc
+  · rw [put_get]; exact R.cntOff All h.off
   · intro v hv hf
     simp only [put_side_same] at hf ⊢
     rw [hfixed] at hf
     rw [hlen, hsize]; exact h.fxo v hv hf
   · intro t ht
-    simp only [put_real] at ht
-    simp only [put_side_same]
+    simp only [put_side_same] at ht ⊢
+    rw [hlu] at ht
     by_cases hts : t = s
     · subst hts
       have h0 := h.acc_cnt t ht
-      rw [if_neg (hnd ht)] at h0
+      rw [if_neg hnd] at h0
       rw [R.loc_s, List.count_cons, h0]; simp
-    · rw [hlo t ht hts, ← h.acc_cnt t ht, List.count_cons]
-      have : (s == t) = false := by simp; exact fun h => hts h.symm
-      simp [this]
+    · have hc : List.count t (s :: acc) = List.count t acc := by
+        rw [List.count_cons]
+        have : (s == t) = false := by simp; exact fun h => hts h.symm
+        simp [this]
+      rw [hc]
+      by_cases htn : t < w.nS
+      · rw [hlo t htn hts]; exact h.acc_cnt t ht
+      · have h1 : t ∉ acc := fun hm => htn (h.acc_lt t hm)
+        rw [List.count_eq_zero.mpr h1, if_neg (hln t (by omega))]
   · intro x hx
     simp only [List.mem_cons] at hx
     simp only [put_nS]
     rcases hx with rfl | hx
     · omega
     · have := h.acc_lt x hx; omega
+  · simp only [put_side_same]; rw [hlu]; exact h.junk_nodup
   · intro x hx
-    simp only [put_side_same, put_real] at hx ⊢
-    rw [hlu] at hx; exact h.junk x hx
-  · simp [R.pre_eq]
-  · simpa using hnext
-  · simp
-  · intro _ _; simp
-  · simp
-  · simpa using hfixed
-  · simpa using hsize
-  · simpa using hlu
+    simp only [put_side_same] at hx ⊢
+    rw [hlu] at hx
+    rw [hlo x (hJlt x hx) (fun hxs => hsJ (hxs ▸ hx))]
+    exact h.junk_loc x hx
+  · intro x hx
+    simp only [put_side_same] at hx
+    rw [hlu] at hx
+    simp only [List.mem_cons, not_or]
+    exact ⟨fun hxs => hsJ (hxs ▸ hx), h.junk_acc x hx⟩
   · simpa using hlo
 
 theorem missingPut_pinv {nU : Nat} {w : World} {k : Which} {u : Nat} {acc : List Nat}
     (h : PInv nU w k u acc) (hu : u < nU) :
     PInv nU (w.put k ((w.get k).newMissing u).1) k u (w.nS :: acc) ∧
       LoopExt w (w.put k ((w.get k).newMissing u).1) k u := by
-  have hreal : ((w.get k).newMissing u).1.real = w.real := by simp [SW.newMissing]
-  have hnr : w.real w.nS = false := by have := h.sc.not_real w.nS; simpa using this
-  refine ⟨⟨?_, ?_, ?_, ?_, ?_, ?_⟩, ⟨?_, ?_, ?_, ?_, ?_, ?_, ?_, ?_⟩⟩
-  · rw [put_get hreal]; exact h.sc.newMissing hu
-  · rw [put_get hreal]; exact fun v hv => (h.off v hv).newMissing h.sc
+  have hJlt : ∀ x ∈ (w.side k).lst u, x < w.nS := by
+    intro x hx; simpa using h.sc.lst_lt u x (by simpa using hx)
+  refine ⟨⟨?_, ?_, ?_, ?_, ?_, ?_, ?_, ?_⟩,
+    put_ext (by simp [SW.newMissing]) (by simp) (by simp [SW.newMissing, Side.setLoc])
+      (by simp [SW.newMissing, Side.setLoc]) (by simp [SW.newMissing, Side.setLoc])⟩
+  · rw [put_get]; exact h.sc.newMissing hu
+  · rw [put_get]
+    intro v hv t _
+    by_cases htn : t = w.nS
+    · subst htn
+      have : w.nS ∉ (w.side k).lst v := fun hm => by
+        have := h.sc.lst_lt v w.nS (by simpa using hm); simp at this
+      simp only [newMissing_lst, get_sd, List.count_eq_zero.mpr this]
+      have := newMissing_loc (w.get k) u
+      simp only [get_next] at this
+      rw [this]; simp; exact fun h => hv h.symm
+    · have := (h.off v hv).newMissing (u := u) t ⟨trivial, by simpa using htn⟩
+      exact this
   · intro v hv hf
     simp only [put_side_same, SW.newMissing, Side.setLoc, get_sd] at hf ⊢
     exact h.fxo v hv hf
   · intro t ht
-    simp only [put_real] at ht
-    have htn : t ≠ w.nS := by intro h; rw [h] at ht; simp [hnr] at ht
-    simp only [put_side_same, SW.newMissing, Side.setLoc, get_sd, get_next, htn, if_false]
-    rw [← h.acc_cnt t ht, List.count_cons]
-    have : (w.nS == t) = false := by simp; exact fun h => htn h.symm
-    simp [this]
+    simp only [put_side_same, SW.newMissing, Side.setLoc, get_sd, get_next] at ht ⊢
+    by_cases htn : t = w.nS
+    · subst htn
+      have : w.nS ∉ acc := fun hm => Nat.lt_irrefl _ (h.acc_lt _ hm)
+      simp [List.count_eq_zero.mpr this]
+    · simp only [htn, if_false]
+      rw [← h.acc_cnt t ht, List.count_cons]
+      have : (w.nS == t) = false := by simp; exact fun h => htn h.symm
+      simp [this]
   · intro x hx
     simp only [List.mem_cons] at hx
     simp only [put_nS, newMissing_next, get_next]
     rcases hx with rfl | hx
     · omega
     · have := h.acc_lt x hx; omega
+  · simpa [SW.newMissing, Side.setLoc] using h.junk_nodup
   · intro x hx
-    simp only [put_side_same, put_real, SW.newMissing, Side.setLoc, get_sd] at hx ⊢
-    exact h.junk x hx
-  · simp [SW.newMissing]
-  · simp
-  · simp
-  · intro _ _; simp
-  · simp
-  · simp [SW.newMissing, Side.setLoc]
-  · simp [SW.newMissing, Side.setLoc]
-  · simp [SW.newMissing, Side.setLoc]
+    simp only [put_side_same, SW.newMissing, Side.setLoc, get_sd, get_next] at hx ⊢
+    have : x ≠ w.nS := by have := hJlt x hx; omega
+    simp only [this, if_false]; exact h.junk_loc x hx
+  · intro x hx
+    simp only [put_side_same, SW.newMissing, Side.setLoc, get_sd] at hx
+    simp only [List.mem_cons, not_or]
+    exact ⟨by have := hJlt x hx; omega, h.junk_acc x hx⟩
 
 theorem dockNew_loc (w : World) (k : Which) (u t : Nat) (ht : t < w.nS) :
     ((w.dockNew k u).side k).loc t = (w.side k).loc t := by
@@ -247,24 +296,24 @@ theorem filterMap_givens (f : Item → Option Nat) (h1 : ∀ s, f (.strm s) = so
 
 theorem loop_transfer {w w' : World} {k : Which} {u x : Nat} {g : List Nat}
     (E : LoopExt w w' k u)
-    (hk : ∀ t, w.real t = true → t < w.nS → t ≠ x → (w'.side k).loc t = (w.side k).loc t)
-    (hb : ∀ s ∈ g, s < w.nS) (hnd : (g.filter w.real).Nodup)
-    (hfresh : ∀ s ∈ g, w.real s = true → (w.side k).loc s ≠ some u)
-    (hx : ∀ s ∈ g, w.real s = true → s ≠ x) :
-    (∀ s ∈ g, s < w'.nS) ∧ (g.filter w'.real).Nodup ∧
-      (∀ s ∈ g, w'.real s = true → (w'.side k).loc s ≠ some u) := by
-  have hf : g.filter w'.real = g.filter w.real :=
-    List.filter_congr (fun s hs => E.real_old s (hb s hs))
-  refine ⟨fun s hs => Nat.lt_of_lt_of_le (hb s hs) E.nS, hf ▸ hnd, fun s hs hr => ?_⟩
-  rw [E.real_old s (hb s hs)] at hr
-  rw [hk s hr (hb s hs) (hx s hs hr)]
-  exact hfresh s hs hr
+    (hk : ∀ t, t < w.nS → t ≠ x → (w'.side k).loc t = (w.side k).loc t)
+    (hb : ∀ s ∈ g, s < w.nS)
+    (hfresh : ∀ s ∈ g, (w.side k).loc s ≠ some u)
+    (hgJ : ∀ s ∈ g, s ∉ (w.side k).lst u)
+    (hx : ∀ s ∈ g, s ≠ x) :
+    (∀ s ∈ g, s < w'.nS) ∧ (∀ s ∈ g, (w'.side k).loc s ≠ some u) ∧
+      (∀ s ∈ g, s ∉ (w'.side k).lst u) := by
+  refine ⟨fun s hs => Nat.lt_of_lt_of_le (hb s hs) E.nS, fun s hs => ?_, fun s hs => ?_⟩
+  · rw [hk s (hb s hs) (hx s hs)]
+    exact hfresh s hs
+  · rw [E.lst_u]; exact hgJ s hs
 
 theorem loadItems_spec {nU : Nat} {w w' : World} {k : Which} {u : Nat} {fx : Bool}
     {acc ss : List Nat} {l : List Item}
     (h : PInv nU w k u acc) (hu : u < nU)
-    (hb : ∀ s ∈ givens l, s < w.nS) (hnd : ((givens l).filter w.real).Nodup)
-    (hfresh : ∀ s ∈ givens l, w.real s = true → (w.side k).loc s ≠ some u)
+    (hb : ∀ s ∈ givens l, s < w.nS) (hnd : (givens l).Nodup)
+    (hfresh : ∀ s ∈ givens l, (w.side k).loc s ≠ some u)
+    (hgJ : ∀ s ∈ givens l, s ∉ (w.side k).lst u)
     (hl : w.loadItems k u fx acc l = .ok (w', ss)) :
     ∃ acc', ss = acc'.reverse ∧ PInv nU w' k u acc' ∧ acc'.length = acc.length + l.length ∧
       LoopExt w w' k u := by
@@ -275,56 +324,52 @@ theorem loadItems_spec {nU : Nat} {w w' : World} {k : Which} {u : Nat} {fx : Boo
     exact ⟨acc, rfl, h, rfl, LoopExt.refl _ _ _⟩
   | cons it r ih =>
     have fin : ∀ (w1 : World) (x : Nat), PInv nU w1 k u (x :: acc) → LoopExt w w1 k u →
-        (∀ t, w.real t = true → t < w.nS → t ≠ x → (w1.side k).loc t = (w.side k).loc t) →
-        (∀ s ∈ givens r, s < w.nS) → ((givens r).filter w.real).Nodup →
-        (∀ s ∈ givens r, w.real s = true → (w.side k).loc s ≠ some u) →
-        (∀ s ∈ givens r, w.real s = true → s ≠ x) →
+        (∀ t, t < w.nS → t ≠ x → (w1.side k).loc t = (w.side k).loc t) →
+        (∀ s ∈ givens r, s < w.nS) → (givens r).Nodup →
+        (∀ s ∈ givens r, (w.side k).loc s ≠ some u) →
+        (∀ s ∈ givens r, s ∉ (w.side k).lst u) →
+        (∀ s ∈ givens r, s ≠ x) →
         w1.loadItems k u fx (x :: acc) r = .ok (w', ss) →
         ∃ acc', ss = acc'.reverse ∧ PInv nU w' k u acc' ∧
           acc'.length = acc.length + (it :: r).length ∧ LoopExt w w' k u := by
-      intro w1 x hP hE hk hb' hnd' hfr' hx' hl'
-      obtain ⟨a1, a2, a3⟩ := loop_transfer hE hk hb' hnd' hfr' hx'
-      obtain ⟨acc', b1, b2, b3, b4⟩ := ih hP a1 a2 a3 hl'
+      intro w1 x hP hE hk hb' hnd' hfr' hgJ' hx' hl'
+      obtain ⟨a1, a2, a3⟩ := loop_transfer hE hk hb' hfr' hgJ' hx'
+      obtain ⟨acc', b1, b2, b3, b4⟩ := ih hP a1 hnd' a2 a3 hl'
       exact ⟨acc', b1, b2, by rw [b3]; simp; omega, hE.trans b4⟩
     have hnew : ∀ (hr : givens (it :: r) = givens r),
         (w.dockNew k u).loadItems k u fx (w.nS :: acc) r = .ok (w', ss) →
         ∃ acc', ss = acc'.reverse ∧ PInv nU w' k u acc' ∧
           acc'.length = acc.length + (it :: r).length ∧ LoopExt w w' k u := by
       intro hr hl'
-      rw [hr] at hb hnd hfresh
+      rw [hr] at hb hnd hfresh hgJ
       exact fin _ _ (dockNew_pinv h hu) (dockNew_ext w k u)
-        (fun t _ ht _ => dockNew_loc w k u t ht) hb hnd hfresh
-        (fun s hs _ => Nat.ne_of_lt (hb s hs)) hl'
+        (fun t ht _ => dockNew_loc w k u t ht) hb hnd hfresh hgJ
+        (fun s hs => Nat.ne_of_lt (hb s hs)) hl'
     cases it with
     | strm s =>
       simp only [World.loadItems] at hl
       obtain ⟨sw1, hr, hl⟩ := bind_ok.mp hl
-      simp only [givens] at hb hnd hfresh
+      simp only [givens] at hb hnd hfresh hgJ
       have hs := hb s (by simp)
-      obtain ⟨p1, p2, p3⟩ := redockPut_pinv h hs hu (hfresh s (by simp)) hr
-      refine fin _ _ p1 p2 (fun t ht _ hts => p3 t ht hts) (fun x hx => hb x (by simp [hx])) ?_
-        (fun x hx => hfresh x (by simp [hx])) ?_ hl
-      · rw [List.filter_cons] at hnd
-        split at hnd
-        · exact (List.nodup_cons.mp hnd).2
-        · exact hnd
-      · intro x hx hrx hxs
-        subst hxs
-        rw [List.filter_cons, if_pos hrx] at hnd
-        exact (List.nodup_cons.mp hnd).1 (List.mem_filter.mpr ⟨hx, hrx⟩)
+      obtain ⟨p1, p2, p3⟩ := redockPut_pinv h hs hu (hfresh s (by simp)) (hgJ s (by simp)) hr
+      refine fin _ _ p1 p2 p3 (fun x hx => hb x (by simp [hx])) (List.nodup_cons.mp hnd).2
+        (fun x hx => hfresh x (by simp [hx])) (fun x hx => hgJ x (by simp [hx])) ?_ hl
+      intro x hx hxs
+      subst hxs
+      exact (List.nodup_cons.mp hnd).1 hx
     | new => exact hnew rfl hl
     | none =>
       cases fx with
       | true => exact hnew rfl hl
       | false =>
-        simp only [givens] at hb hnd hfresh
+        simp only [givens] at hb hnd hfresh hgJ
         obtain ⟨p1, p2⟩ := missingPut_pinv h hu
         have hl' : (w.put k ((w.get k).newMissing u).1).loadItems k u false
             (((w.get k).newMissing u).2 :: acc) r = .ok (w', ss) := hl
         rw [newMissing_snd, get_next] at hl'
         replace hl := hl'
-        exact fin _ _ p1 p2 (fun t _ ht _ => missingPut_loc w k u t ht) hb hnd hfresh
-          (fun s hs _ => Nat.ne_of_lt (hb s hs)) hl
+        exact fin _ _ p1 p2 (fun t ht _ => missingPut_loc w k u t ht) hb hnd hfresh hgJ
+          (fun s hs => Nat.ne_of_lt (hb s hs)) hl
 
 /-! ## `initSeq` -/
 
@@ -342,42 +387,43 @@ structure InitSpec (w w' : World) (k : Which) : Prop where
   pre : w'.pre = true → w.pre = true
   nS : w.nS ≤ w'.nS
   nU : w'.nU = w.nU
+  nreal : (∀ s, w.nS ≤ s → w.real s = false) → (∀ s, w'.nS ≤ s → w'.real s = false)
   real_old : ∀ s, s < w.nS → w'.real s = w.real s
   other : w'.side k.other = w.side k.other
 
 theorem InitSpec.trans {a b c : World} {k : Which} (h1 : InitSpec a b k) (h2 : InitSpec b c k) :
     InitSpec a c k :=
   ⟨fun h => h1.pre (h2.pre h), Nat.le_trans h1.nS h2.nS, h2.nU.trans h1.nU,
+   fun h => h2.nreal (h1.nreal h),
    fun s hs => (h2.real_old s (Nat.lt_of_lt_of_le hs h1.nS)).trans (h1.real_old s hs),
    h2.other.trans h1.other⟩
 
 theorem LoopExt.toInit {a b : World} {k : Which} {u : Nat} (h : LoopExt a b k u) : InitSpec a b k :=
-  ⟨fun hp => h.pre ▸ hp, h.nS, h.nU, h.real_old, h.other⟩
+  ⟨fun hp => h.pre ▸ hp, h.nS, h.nU, h.nreal, h.real_old, h.other⟩
 
 theorem register_init (w : World) (k : Which) (u n : Nat) (fx : Bool) :
     InitSpec w (w.register k u n fx) k :=
   ⟨by simp [World.register], by simp [World.register], by simp [World.register],
-   by simp [World.register], by simp [World.register]⟩
+   by simp [World.register], by simp [World.register], by simp [World.register]⟩
 
 theorem bindLst_init (w : World) (k : Which) (u : Nat) (L : List Nat) :
     InitSpec w (w.bindLst k u L) k :=
   ⟨by simp [World.bindLst], by simp [World.bindLst], by simp [World.bindLst],
-   by simp [World.bindLst], by simp [World.bindLst]⟩
+   by simp [World.bindLst], by simp [World.bindLst], by simp [World.bindLst]⟩
 
 theorem register_pinv {nU : Nat} {w : World} {k : Which} {u n : Nat} {fx : Bool}
-    (h : SInv u (w.get k)) (hu : u < nU) :
+    (h : SInv u All (w.get k)) (hu : u < nU) :
     PInv nU (w.register k u n fx) k u [] ∧ ((w.register k u n fx).side k).fixed u = fx ∧
       ((w.register k u n fx).side k).size u = n ∧ ((w.register k u n fx).side k).lst u = [] := by
-  have hreal : ∀ (sd : Side), (⟨sd, (w.get k).next, (w.get k).real, (w.get k).pre⟩ : SW).real = w.real := by
-    intro sd; simp
   have hlst := h.sc.lst_nil u (Nat.le_refl _)
-  refine ⟨⟨?_, ?_, ?_, ?_, ?_, ?_⟩, ?_, ?_, ?_⟩
+  have hlst' : ((w.register k u n fx).side k).lst u = [] := by
+    simpa [World.register] using hlst
+  refine ⟨⟨?_, ?_, ?_, ?_, ?_, ?_, ?_, ?_⟩, ?_, ?_, hlst'⟩
   · simp only [World.register]
-    rw [put_get (hreal _)]
+    rw [put_get]
     constructor
     · exact h.sc.lst_lt
     · exact h.sc.loc_none
-    · exact h.sc.not_real
     · intro v hv; exact h.sc.lst_nil v (by omega)
     · intro v hv
       have : v ≠ u := by omega
@@ -386,7 +432,7 @@ theorem register_pinv {nU : Nat} {w : World} {k : Which} {u n : Nat} {fx : Bool}
     · intro s v hs; have := h.sc.loc_lt s v hs; omega
   · intro v _
     simp only [World.register]
-    rw [put_get (hreal _)]
+    rw [put_get]
     exact h.cnt v
   · intro v hv hf
     simp only [World.register, put_side_same, hv, if_false] at hf ⊢
@@ -398,106 +444,101 @@ theorem register_pinv {nU : Nat} {w : World} {k : Which} {u n : Nat} {fx : Bool}
       omega
     simp [World.register, this]
   · simp
-  · intro x hx
-    simp only [World.register, put_side_same] at hx
-    rw [hlst] at hx; cases hx
+  · rw [hlst']; exact List.nodup_nil
+  · intro x hx; rw [hlst'] at hx; cases hx
+  · intro x hx; rw [hlst'] at hx; cases hx
   · simp [World.register]
   · simp [World.register]
-  · simpa [World.register] using hlst
 
 theorem PInv.setPre {nU : Nat} {w : World} {k : Which} {u : Nat} {acc : List Nat} (p : Bool)
     (h : PInv nU w k u acc) : PInv nU { w with pre := p } k u acc := by
   cases k <;>
-  exact ⟨h.sc.of_eq rfl rfl rfl, fun v hv => (h.off v hv).of_eq rfl rfl, h.fxo, h.acc_cnt,
-    h.acc_lt, h.junk⟩
+  exact ⟨h.sc.of_eq rfl rfl, fun v hv => (h.off v hv).of_eq rfl, h.fxo, h.acc_cnt,
+    h.acc_lt, h.junk_nodup, h.junk_loc, h.junk_acc⟩
 
-theorem missingsPut_pinv {nU : Nat} {w : World} {k : Which} {u : Nat} {acc : List Nat} (n : Nat)
-    (h : PInv nU w k u acc) (hu : u < nU) :
-    PInv nU (w.put k ((w.get k).newMissings u n).1) k u acc ∧
-      LoopExt w (w.put k ((w.get k).newMissings u n).1) k u := by
+/-- `_initialize_missing_streams()` of a list that is still empty: the `n` placeholders become the
+(provisional) port list. -/
+def World.junkInit (w : World) (k : Which) (u n : Nat) : World :=
+  (w.put k ((w.get k).newMissings u n).1).bindLst k u ((w.get k).newMissings u n).2
+
+theorem junkInit_side (w : World) (k : Which) (u n : Nat) :
+    (w.junkInit k u n).side k =
+      ((w.get k).newMissings u n).1.sd.setLst u ((w.get k).newMissings u n).2 := by
+  simp [World.junkInit, World.bindLst, put_get]
+
+theorem junkInit_init (w : World) (k : Which) (u n : Nat) : InitSpec w (w.junkInit k u n) k := by
   have M := newMissings_spec (w.get k) u n
-  have hreal : ((w.get k).newMissings u n).1.real = w.real := by simpa using M.real
-  have hnr : ∀ t, w.real t = true → t < w.nS := by
-    intro t ht
-    have := h.sc.not_real t
-    simp only [get_next, get_real] at this
-    grind
-  refine ⟨⟨?_, ?_, ?_, ?_, ?_, ?_⟩, ⟨?_, ?_, ?_, ?_, ?_, ?_, ?_, ?_⟩⟩
-  · rw [put_get hreal]; exact h.sc.newMissings hu n
-  · rw [put_get hreal]; exact fun v hv => (h.off v hv).newMissings h.sc hu n
+  refine ⟨fun hp => ?_, ?_, ?_, ?_, ?_, ?_⟩
+  · have : (w.junkInit k u n).pre = w.pre := by simpa [World.junkInit, World.bindLst] using M.pre_eq
+    rw [← this]; exact hp
+  · simp [World.junkInit, World.bindLst, M.next]
+  · simp [World.junkInit, World.bindLst]
+  · intro hn s hs
+    simp only [World.junkInit, World.bindLst, put_nS, put_real, M.next, get_next] at hs ⊢
+    exact hn s (by omega)
+  · intro s _; simp [World.junkInit, World.bindLst]
+  · simp [World.junkInit, World.bindLst]
+
+theorem junkInit_pinv {nU : Nat} {w : World} {k : Which} {u : Nat} (n : Nat)
+    (h : PInv nU w k u []) (hl : (w.side k).lst u = []) (hu : u < nU) :
+    PInv nU (w.junkInit k u n) k u [] := by
+  have M := newMissings_spec (w.get k) u n
+  have hsd := junkInit_side w k u n
+  have hget : (w.junkInit k u n).get k =
+      { ((w.get k).newMissings u n).1 with
+        sd := ((w.get k).newMissings u n).1.sd.setLst u ((w.get k).newMissings u n).2 } := by
+    simp [World.junkInit, World.bindLst, put_get]
+  refine ⟨?_, ?_, ?_, ?_, ?_, ?_, ?_, ?_⟩
+  · rw [hget]
+    exact (h.sc.newMissings hu n).setLst hu M.lt
+  · rw [hget]
+    intro v hv t _
+    have := (h.off v hv).newMissings h.sc hv n t trivial
+    show List.count t ((((w.get k).newMissings u n).1.sd.setLst u _).lst v) = _
+    rw [setLst_lst_ne _ _ hv]; exact this
   · intro v hv hf
-    simp only [put_side_same] at hf ⊢
-    rw [M.fixed] at hf
-    rw [M.lst, M.size]
+    rw [hsd] at hf ⊢
+    rw [setLst_fixed, M.fixed] at hf
+    rw [setLst_lst_ne _ _ hv, setLst_size, M.lst, M.size]
     simp only [get_sd] at hf ⊢
     exact h.fxo v hv hf
   · intro t ht
-    simp only [put_real] at ht
-    simp only [put_side_same]
-    rw [M.loc_old t (by simpa using hnr t ht)]
-    simpa using h.acc_cnt t ht
+    rw [hsd] at ht ⊢
+    rw [setLst_lst_same] at ht
+    rw [setLst_loc, M.loc_eq, if_neg (fun hc => ht ((M.mem_iff t).mpr hc))]
+    have := h.acc_cnt t (by rw [hl]; simp)
+    simpa using this
+  · intro x hx; cases hx
+  · rw [hsd, setLst_lst_same]; exact M.nodup
   · intro x hx
-    have := h.acc_lt x hx
-    have := M.next
-    simp only [put_nS, get_next] at *
-    omega
-  · intro x hx
-    simp only [put_side_same, put_real] at hx ⊢
-    rw [M.lst] at hx
-    exact h.junk x (by simpa using hx)
-  · simpa using M.pre_eq
-  · simpa using M.next
-  · simp
-  · intro _ _; simp
-  · simp
-  · simpa using M.fixed
-  · simpa using M.size
-  · simp [M.lst]
-
-theorem bindLst_pinv {nU : Nat} {w : World} {k : Which} {u : Nat} {acc L : List Nat}
-    (h : PInv nU w k u acc) (hu : u < nU) (hL : ∀ x ∈ L, x < w.nS ∧ w.real x = false) :
-    PInv nU (w.bindLst k u L) k u acc := by
-  have hreal : ∀ (sd : Side), (⟨sd, (w.get k).next, (w.get k).real, (w.get k).pre⟩ : SW).real = w.real := by
-    intro sd; simp
-  refine ⟨?_, ?_, ?_, ?_, ?_, ?_⟩
-  · simp only [World.bindLst]
-    rw [put_get (hreal _)]
-    exact h.sc.setLst hu (fun x hx => by simpa using (hL x hx).1)
-  · intro v hv
-    simp only [World.bindLst]
-    rw [put_get (hreal _)]
-    intro t ht
-    have := h.off v hv t ht
-    simpa [Side.setLst, hv] using this
-  · intro v hv hf
-    simp only [World.bindLst, put_side_same, Side.setLst, hv, if_false, get_sd] at hf ⊢
-    exact h.fxo v hv hf
-  · intro t ht
-    simp only [World.bindLst, put_real] at ht
-    simpa [World.bindLst, Side.setLst] using h.acc_cnt t ht
-  · simpa [World.bindLst] using h.acc_lt
-  · intro x hx
-    simp only [World.bindLst, put_side_same, Side.setLst, if_true, put_real] at hx ⊢
-    exact (hL x hx).2
+    rw [hsd] at hx ⊢
+    rw [setLst_lst_same] at hx
+    rw [setLst_loc, M.loc_eq, if_pos ((M.mem_iff x).mp hx)]
+  · intro x _; simp
 
 theorem pinv_finish {nU : Nat} {w : World} {k : Which} {u : Nat} {acc L : List Nat}
     (h : PInv nU w k u acc) (hu : u < nU) (hL : ∀ x ∈ L, x < w.nS)
-    (hc : ∀ t, w.real t = true → L.count t = acc.count t)
+    (hc : ∀ t, L.count t = if (w.side k).loc t = some u then 1 else 0)
     (hf : (w.side k).fixed u = true → L.length = (w.side k).size u) :
-    SInv nU ((w.bindLst k u L).get k) := by
-  have hreal : ∀ (sd : Side), (⟨sd, (w.get k).next, (w.get k).real, (w.get k).pre⟩ : SW).real = w.real := by
-    intro sd; simp
+    SInv nU All ((w.bindLst k u L).get k) := by
   simp only [World.bindLst]
-  rw [put_get (hreal _)]
+  rw [put_get]
   apply SInv.setLst h.sc hu
   · simpa using hL
   · exact h.off
-  · intro t ht
-    simp only [get_real] at ht
-    rw [hc t ht]
-    simpa using h.acc_cnt t ht
+  · intro t _; simpa using hc t
   · simpa using h.fxo
   · simpa using hf
+
+/-- with an empty provisional list, the objects docked so far are the final list -/
+theorem pinv_finish_acc {nU : Nat} {w : World} {k : Which} {u : Nat} {acc : List Nat}
+    (h : PInv nU w k u acc) (hu : u < nU) (hl : (w.side k).lst u = [])
+    (hf : (w.side k).fixed u = true → acc.length = (w.side k).size u) :
+    SInv nU All ((w.bindLst k u acc.reverse).get k) := by
+  apply pinv_finish h hu
+  · intro x hx; exact h.acc_lt x (by simpa using hx)
+  · intro t; rw [List.count_reverse]; exact h.acc_cnt t (by rw [hl]; simp)
+  · intro hx; rw [List.length_reverse]; exact hf hx
 
 theorem put_bindLst (w : World) (k : Which) (sw1 : SW) (u : Nat) (L : List Nat) :
     w.put k { sw1 with sd := sw1.sd.setLst u L } = (w.put k sw1).bindLst k u L := by
@@ -506,10 +547,12 @@ theorem put_bindLst (w : World) (k : Which) (sw1 : SW) (u : Nat) (L : List Nat) 
 theorem put_init {w : World} {k : Which} {sw : SW} (h : Ext (w.get k) sw) :
     InitSpec w (w.put k sw) k :=
   ⟨fun hp => by simpa using h.pre (by simpa using hp), by simpa using h.next, by simp,
-   fun _ _ => by simp, by simp⟩
+   fun hn s hs => by
+     simp only [put_nS, put_real] at hs ⊢
+     exact hn s (Nat.le_trans (by simpa using h.next) hs), fun _ _ => by simp, by simp⟩
 
 theorem InitSpec.refl (w : World) (k : Which) : InitSpec w w k :=
-  ⟨id, Nat.le_refl _, rfl, fun _ _ => rfl, rfl⟩
+  ⟨id, Nat.le_refl _, rfl, id, fun _ _ => rfl, rfl⟩
 
 theorem freshStreams_init (w : World) (k : Which) (u : Nat) (acc : List Nat) (j : Nat) :
     InitSpec w (w.freshStreams k u acc j).1 k := by
@@ -544,7 +587,7 @@ theorem loadItems_init {w w' : World} {k : Which} {u : Nat} {fx : Bool} {acc ss 
 theorem setPre_init (w : World) (k : Which) (c : Bool) :
     InitSpec w { w with pre := w.pre && c } k :=
   ⟨fun hp => by simp only [Bool.and_eq_true] at hp; exact hp.1, Nat.le_refl _, rfl,
-   fun _ _ => rfl, by cases k <;> rfl⟩
+   id, fun _ _ => rfl, by cases k <;> rfl⟩
 
 theorem initGiven_spec {nU : Nat} {wP w' : World} {k : Which} {u n : Nat} {fx : Bool}
     {l : List Item}
@@ -554,30 +597,31 @@ theorem initGiven_spec {nU : Nat} {wP w' : World} {k : Which} {u n : Nat} {fx : 
           ((wP.put k { ((wP.get k).newMissings u n).1 with
               sd := ((wP.get k).newMissings u n).1.sd.setLst u ((wP.get k).newMissings u n).2 }).loadItems
             k u true [] l) >>= fun x =>
-              Except.ok (x.1.put k { (x.1.get k) with
-                sd := (x.1.get k).sd.setLst u (x.2 ++ List.drop x.2.length ((x.1.get k).sd.lst u)) })
+              Except.ok (x.1.put k { ((x.1.get k).undockAll (((x.1.get k).sd.lst u).take x.2.length)) with
+                sd := ((x.1.get k).undockAll (((x.1.get k).sd.lst u).take x.2.length)).sd.setLst u
+                  (x.2 ++ List.drop x.2.length
+                    (((x.1.get k).undockAll (((x.1.get k).sd.lst u).take x.2.length)).sd.lst u)) })
       else
         (wP.loadItems k u false [] l) >>= fun x =>
           Except.ok (x.1.put k { (x.1.get k) with sd := (x.1.get k).sd.setLst u x.2 })) =
       Except.ok w') :
     InitSpec wP w' k ∧
-    (PInv nU wP k u [] → (wP.side k).fixed u = fx → (wP.side k).size u = n → u < nU →
-      (∀ s ∈ givens l, s < wP.nS) → ((givens l).filter wP.real).Nodup →
-      (∀ s ∈ givens l, wP.real s = true → (wP.side k).loc s ≠ some u) →
-      SInv nU (w'.get k)) := by
+    (PInv nU wP k u [] → (wP.side k).lst u = [] → (wP.side k).fixed u = fx → (wP.side k).size u = n →
+      u < nU → (∀ s ∈ givens l, s < wP.nS) → (givens l).Nodup →
+      (∀ s ∈ givens l, (wP.side k).loc s ≠ some u) →
+      SInv nU All (w'.get k)) := by
   cases fx with
   | false =>
     simp only [Bool.false_eq_true, if_false] at h
     obtain ⟨⟨w1, ss⟩, hl, h⟩ := bind_ok.mp h
     have h' : Except.ok (w1.bindLst k u ss) = Except.ok w' := h
     cases h'
-    refine ⟨(loadItems_init hl).trans (bindLst_init _ k u _), fun hP hfx hsz hu hb hnd hfr => ?_⟩
-    obtain ⟨acc', e1, hP', hlen, E⟩ := loadItems_spec hP hu hb hnd hfr hl
+    refine ⟨(loadItems_init hl).trans (bindLst_init _ k u _), fun hP hlu hfx hsz hu hb hnd hfr => ?_⟩
+    obtain ⟨acc', e1, hP', hlen, E⟩ := loadItems_spec hP hu hb hnd hfr
+      (fun s _ => by rw [hlu]; simp) hl
     subst e1
-    apply pinv_finish hP' hu
-    · intro x hx; exact hP'.acc_lt x (by simpa using hx)
-    · intro t _; exact List.count_reverse
-    · intro hf; rw [E.fixed, hfx] at hf; cases hf
+    apply pinv_finish_acc hP' hu (by rw [E.lst_u]; exact hlu)
+    intro hf; rw [E.fixed, hfx] at hf; cases hf
   | true =>
     simp only [if_true] at h
     split at h
@@ -585,85 +629,86 @@ theorem initGiven_spec {nU : Nat} {wP w' : World} {k : Which} {u n : Nat} {fx : 
     · rename_i hnl
       rw [put_bindLst] at h
       obtain ⟨⟨w1, ss⟩, hl, h⟩ := bind_ok.mp h
-      have h' : Except.ok (w1.bindLst k u (ss ++ List.drop ss.length ((w1.get k).sd.lst u))) =
-          Except.ok w' := h
-      cases h'
+      simp only [undockAll_lst] at h
+      cases h
+      have hl' : (wP.junkInit k u n).loadItems k u true [] l = .ok (w1, ss) := hl
       have M := newMissings_spec (wP.get k) u n
-      refine ⟨(((put_init M.ext).trans (bindLst_init _ k u _)).trans (loadItems_init hl)).trans
-        (bindLst_init _ k u _), fun hP hfx hsz hu hb hnd hfr => ?_⟩
-      obtain ⟨hP1, E1⟩ := missingsPut_pinv n hP hu
-      have hnr : ∀ t, wP.real t = true → t < wP.nS := by
-        intro t ht
-        have := hP.sc.not_real t
-        simp only [get_next, get_real] at this
-        grind
-      have hms : ∀ x ∈ ((wP.get k).newMissings u n).2,
-          x < (wP.put k ((wP.get k).newMissings u n).1).nS ∧
-            (wP.put k ((wP.get k).newMissings u n).1).real x = false := by
-        intro x hx
-        have hf := M.fresh x hx
-        simp only [get_next] at hf
-        refine ⟨by simpa using hf.2, ?_⟩
-        simp only [put_real]
-        cases hr : wP.real x with
-        | false => rfl
-        | true => have := hnr x hr; omega
-      have hP2 := bindLst_pinv hP1 hu hms
-      have E2 := bindLst_init (wP.put k ((wP.get k).newMissings u n).1) k u
-        ((wP.get k).newMissings u n).2
-      have hloc2 : ∀ t, t < wP.nS →
-          (((wP.put k ((wP.get k).newMissings u n).1).bindLst k u
-            ((wP.get k).newMissings u n).2).side k).loc t = (wP.side k).loc t := by
-        intro t ht
-        simp only [World.bindLst, put_side_same, Side.setLst]
-        simpa using M.loc_old t (by simpa using ht)
-      obtain ⟨acc', e1, hP', hlen, E⟩ := loadItems_spec hP2 hu
+      have Efin : Ext (w1.get k)
+          { ((w1.get k).undockAll (((w1.get k).sd.lst u).take ss.length)) with
+            sd := ((w1.get k).undockAll (((w1.get k).sd.lst u).take ss.length)).sd.setLst u
+              (ss ++ List.drop ss.length ((w1.get k).sd.lst u)) } :=
+        ⟨by simp, by simp, by simp, by simp⟩
+      refine ⟨((junkInit_init wP k u n).trans (loadItems_init hl')).trans (put_init Efin),
+        fun hP hlu hfx hsz hu hb hnd hfr => ?_⟩
+      have hPJ := junkInit_pinv n hP hlu hu
+      have hJI := junkInit_init wP k u n
+      have hsd := junkInit_side wP k u n
+      have hJlst : ((wP.junkInit k u n).side k).lst u = ((wP.get k).newMissings u n).2 := by
+        rw [hsd, setLst_lst_same]
+      obtain ⟨acc', e1, hP', hlen, E⟩ := loadItems_spec hPJ hu
+        (fun s hs => Nat.lt_of_lt_of_le (hb s hs) hJI.nS) hnd
         (fun s hs => by
+          rw [hsd, setLst_loc, M.loc_eq, if_neg (by have := hb s hs; simp only [get_next]; omega)]
+          simpa using hfr s hs)
+        (fun s hs hm => by
+          rw [hJlst] at hm
+          have := (M.mem_iff s).mp hm
           have := hb s hs
-          have := M.next
-          simp only [World.bindLst, put_nS, get_next] at *
-          omega)
-        (by simpa [World.bindLst] using hnd)
-        (fun s hs hr => by
-          simp only [World.bindLst, put_real] at hr
-          rw [hloc2 s (hb s hs)]
-          exact hfr s hs hr) hl
+          simp only [get_next] at *
+          omega) hl'
       subst e1
-      have hlu : (w1.side k).lst u = ((wP.get k).newMissings u n).2 := by
-        rw [E.lst_u]; simp [World.bindLst, Side.setLst]
-      have hjunk := hP'.junk
-      rw [hlu] at hjunk
-      simp only [get_sd, hlu]
-      apply pinv_finish hP' hu
+      have hlu1 : (w1.get k).sd.lst u = ((wP.get k).newMissings u n).2 := by
+        simp only [get_sd]; rw [E.lst_u]; exact hJlst
+      have hJn := hP'.junk_nodup
+      have hJl := hP'.junk_loc
+      have hJa := hP'.junk_acc
+      have hAc := hP'.acc_cnt
+      simp only [← get_sd] at hJn hJl hJa hAc
+      rw [put_get]
+      simp only [List.length_reverse]
+      generalize hJ : (w1.get k).sd.lst u = J at *
+      apply SInv.setLst (hP'.sc.undockAll _) hu
       · intro x hx
+        simp only [undockAll_next]
         rcases List.mem_append.mp hx with hx | hx
-        · exact hP'.acc_lt x (by simpa using hx)
-        · have := hP'.sc.lst_lt u x (by simp only [get_sd, hlu]; exact List.mem_of_mem_drop hx)
-          simpa using this
-      · intro t ht
-        rw [List.count_append, List.count_reverse]
-        have : t ∉ List.drop acc'.reverse.length ((wP.get k).newMissings u n).2 := by
-          intro hm
-          have := hjunk t (List.mem_of_mem_drop hm)
-          rw [this] at ht; cases ht
-        rw [List.count_eq_zero.mpr this]; rfl
+        · simpa using hP'.acc_lt x (by simpa using hx)
+        · exact hP'.sc.lst_lt u x (by rw [hJ]; exact List.mem_of_mem_drop hx)
+      · exact cntOff_undockAll' hP'.off (fun x hx => hJl x (List.mem_of_mem_take hx))
+      · intro t _
+        rw [undockAll_loc, List.count_append, List.count_reverse]
+        have hsplit : J.count t = (J.take acc'.length).count t + (J.drop acc'.length).count t := by
+          conv => lhs; rw [← List.take_append_drop acc'.length J]
+          rw [List.count_append]
+        by_cases htJ : t ∈ J
+        · have h1 : J.count t = 1 := by rw [hJn.count]; simp [htJ]
+          have h2 : acc'.count t = 0 := List.count_eq_zero.mpr (hJa t htJ)
+          have hloc := hJl t htJ
+          by_cases hT : t ∈ J.take acc'.length
+          · have := List.count_pos_iff.mpr hT
+            rw [if_pos hT]; simp; omega
+          · have := List.count_eq_zero.mpr hT
+            rw [if_neg hT, hloc]; simp; omega
+        · have h0 : (J.drop acc'.length).count t = 0 :=
+            List.count_eq_zero.mpr (fun hm => htJ (List.mem_of_mem_drop hm))
+          have hT : t ∉ J.take acc'.length := fun hm => htJ (List.mem_of_mem_take hm)
+          rw [if_neg hT, h0]; simpa using hAc t htJ
+      · intro v hv hf
+        simp only [undockAll_fixed, undockAll_lst, undockAll_size, get_sd] at hf ⊢
+        exact hP'.fxo v hv hf
       · intro _
         have hsz' : (w1.side k).size u = n := by
-          rw [E.size]
-          have : (((wP.put k ((wP.get k).newMissings u n).1).bindLst k u
-              ((wP.get k).newMissings u n).2).side k).size =
-              ((wP.put k ((wP.get k).newMissings u n).1).side k).size := by
-            simp [World.bindLst, Side.setLst]
-          rw [this, E1.size]; exact hsz
-        rw [hsz', List.length_append, List.length_drop, M.len, List.length_reverse, hlen]
+          rw [E.size, hsd, setLst_size, M.size]; simpa using hsz
+        simp only [undockAll_size, get_sd, hsz']
+        have hJlen : J.length = n := by rw [hlu1, M.len]
+        rw [List.length_append, List.length_drop, hJlen, List.length_reverse, hlen]
         simp only [List.length_nil]
         omega
 
 theorem initSeq_spec {nU : Nat} {w w' : World} {k : Which} {u n : Nat} {fx : Bool} {arg : PortsArg}
     (h : w.initSeq k u n fx arg = .ok w') :
     InitSpec w w' k ∧
-    (w'.pre = true → SInv u (w.get k) → u < nU → (∀ s ∈ arg.ids, s < w.nS) →
-      SInv nU (w'.get k)) := by
+    (w'.pre = true → SInv u All (w.get k) → u < nU → (∀ s ∈ arg.ids, s < w.nS) →
+      SInv nU All (w'.get k)) := by
   unfold World.initSeq at h
   dsimp only at h
   cases arg with
@@ -673,54 +718,41 @@ theorem initSeq_spec {nU : Nat} {w w' : World} {k : Which} {u n : Nat} {fx : Boo
     cases h'
     refine ⟨((register_init w k u n fx).trans (freshStreams_init _ k u [] n)).trans
       (bindLst_init _ k u _), fun _ hI hu _ => ?_⟩
-    obtain ⟨hP, hfx, hsz, -⟩ := register_pinv (n := n) (fx := fx) hI hu
+    obtain ⟨hP, hfx, hsz, hlu⟩ := register_pinv (n := n) (fx := fx) hI hu
     obtain ⟨acc', e1, hP', hlen, E⟩ := freshStreams_spec n hP hu
     rw [e1]
-    apply pinv_finish hP' hu
-    · intro x hx; exact hP'.acc_lt x (by simpa using hx)
-    · intro t _; exact List.count_reverse
-    · intro _; rw [E.size, hsz, List.length_reverse, hlen]; simp
+    apply pinv_finish_acc hP' hu (by rw [E.lst_u]; exact hlu)
+    intro _; rw [E.size, hsz, hlen]; simp
   | missing =>
     have h' : Except.ok ((w.register k u n fx).put k
         { (((w.register k u n fx).get k).newMissings u n).1 with
           sd := (((w.register k u n fx).get k).newMissings u n).1.sd.setLst u
             (((w.register k u n fx).get k).newMissings u n).2 }) = Except.ok w' := h
     rw [put_bindLst] at h'
-    cases h'
+    have h'' : (Except.ok ((w.register k u n fx).junkInit k u n) : Except Err World) = Except.ok w' := h'
+    cases h''
+    refine ⟨(register_init w k u n fx).trans (junkInit_init _ k u n), fun _ hI hu _ => ?_⟩
+    obtain ⟨hP, hfx, hsz, hlu⟩ := register_pinv (n := n) (fx := fx) hI hu
     have M := newMissings_spec ((w.register k u n fx).get k) u n
-    refine ⟨((register_init w k u n fx).trans (put_init M.ext)).trans
-      (bindLst_init _ k u _), fun _ hI hu _ => ?_⟩
-    obtain ⟨hP, hfx, hsz, -⟩ := register_pinv (n := n) (fx := fx) hI hu
-    obtain ⟨hP', E⟩ := missingsPut_pinv n hP hu
-    apply pinv_finish hP' hu
-    · intro x hx; simpa using (M.fresh x hx).2
-    · intro t ht
-      simp only [put_real] at ht
-      have : t < (w.register k u n fx).nS := by
-        have := hP.sc.not_real t
-        simp only [get_next, get_real] at this
-        grind
-      simp only [List.count_nil]
-      apply List.count_eq_zero.mpr
-      intro hm
-      have := (M.fresh t hm).1
-      simp only [get_next] at this
-      omega
-    · intro _; rw [E.size, hsz, M.len]
+    have := SInv.pad (n := n) (L := []) hP.sc hu (by simp) hP.off
+      (by intro t; simpa using hP.acc_cnt t (by rw [hlu]; simp))
+      (by simpa using hP.fxo) (by intro _; simpa using hsz.symm)
+    simpa [World.junkInit, World.bindLst, put_get] using this
   | given l =>
     have G := initGiven_spec (nU := nU) h
-    refine ⟨((register_init w k u n fx).trans (setPre_init _ k _)).trans G.1, fun hp hI hu hb => ?_⟩
-    obtain ⟨hP, hfx, hsz, -⟩ := register_pinv (n := n) (fx := fx) hI hu
+    refine ⟨((register_init w k u n fx).trans ((setPre_init _ k _).trans (setPre_init _ k _))).trans G.1,
+      fun hp hI hu hb => ?_⟩
+    obtain ⟨hP, hfx, hsz, hlu⟩ := register_pinv (n := n) (fx := fx) hI hu
     have hpP := G.1.pre hp
     simp only [Bool.and_eq_true, decide_eq_true_eq] at hpP
-    have hnd := hpP.2
+    have hnd := hpP.1.2
     rw [filterMap_givens _ (fun _ => rfl) rfl rfl] at hnd
     simp only [PortsArg.ids] at hb
     rw [filterMap_givens _ (fun _ => rfl) rfl rfl] at hb
-    apply G.2 (hP.setPre _) hfx hsz hu
+    apply G.2 (hP.setPre _) (by cases k <;> exact hlu) hfx hsz hu
     · simpa [World.register] using hb
     · exact hnd
-    · intro s _ _ hc
+    · intro s _ hc
       have hc' : (w.side k).loc s = some u := by cases k <;> exact hc
       have := hI.sc.loc_lt s u (by simpa using hc')
       omega
@@ -740,22 +772,23 @@ theorem newUnit_wstep {w w' : World} {ni no : Nat} {fi fo : Bool} {ai ao : Ports
   have hnS1 : w.nS ≤ w1.nS := S1.1.nS
   have ho1 : w1.outs = w.outs := S1.1.other
   have hi2 : w'.ins = w1.ins := S2.1.other
-  refine ⟨⟨fun hp => S1.1.pre (S2.1.pre hp), Nat.le_trans hnS1 S2.1.nS, by omega⟩,
+  refine ⟨⟨fun hp => S1.1.pre (S2.1.pre hp), Nat.le_trans hnS1 S2.1.nS, by omega,
+    fun s hs => (S2.1.real_old s (Nat.lt_of_lt_of_le hs hnS1)).trans (S1.1.real_old s hs)⟩,
     fun hp hG ⟨hb1, hb2⟩ => ?_⟩
   have hp1 := S2.1.pre hp
-  have I1 : SInv (w.nU + 1) (w1.get .i) := S1.2 hp1 hG.1 (Nat.lt_succ_self _) hb1
-  have O1 : SInv w.nU (w1.get .o) := by
-    show SInv w.nU ⟨w1.outs, w1.nS, w1.real, w1.pre⟩
+  have I1 : SInv (w.nU + 1) All (w1.get .i) := S1.2 hp1 hG.ins (Nat.lt_succ_self _) hb1
+  have O1 : SInv w.nU All (w1.get .o) := by
+    show SInv w.nU All ⟨w1.outs, w1.nS, w1.pre⟩
     rw [ho1]
-    exact hG.2.grow hnS1 (Nat.le_refl _) S1.1.real_old I1.sc.not_real
-  have O2 : SInv (w.nU + 1) (w'.get .o) :=
+    exact hG.outs.grow hnS1 (Nat.le_refl _)
+  have O2 : SInv (w.nU + 1) All (w'.get .o) :=
     S2.2 hp O1 (Nat.lt_succ_self _) (fun s hs => Nat.lt_of_lt_of_le (hb2 s hs) hnS1)
-  have I2 : SInv (w.nU + 1) (w'.get .i) := by
-    show SInv (w.nU + 1) ⟨w'.ins, w'.nS, w'.real, w'.pre⟩
+  have I2 : SInv (w.nU + 1) All (w'.get .i) := by
+    show SInv (w.nU + 1) All ⟨w'.ins, w'.nS, w'.pre⟩
     rw [hi2]
-    exact I1.grow S2.1.nS (Nat.le_refl _) S2.1.real_old O2.sc.not_real
-  unfold GoodS
-  rw [hnU2]
-  exact ⟨I2, O2⟩
+    exact I1.grow S2.1.nS (Nat.le_refl _)
+  refine ⟨?_, ?_, S2.1.nreal (S1.1.nreal hG.nreal)⟩
+  · rw [hnU2]; exact I2
+  · rw [hnU2]; exact O2
 
 end ThermoVerif.Network
